@@ -57,6 +57,7 @@ def gen_unary(spec, level="quick"):
     ops.append(("transpose", (None,)))
     if nd >= 2:
         ops.append(("transpose", (tuple(a - nd for a in perms[-1]),)))
+        ops.append(("transpose", ((-1,) + tuple(range(nd - 1)),)))  # a cyclic shift spelled with mixed-sign axis numbers
     if f:
         for pp in (True, False):
             for pdl in (False, True):
